@@ -170,6 +170,12 @@ class SCCReader(BaseReader):
     """
 
     def __init__(self, *args, **kw):
+        self._reset_state()
+
+    def _reset_state(self):
+        """(Re)creates everything a read accumulates, so that a reader object
+        can be used for more than one document
+        """
         self.caption_stash = CaptionCreator()
         self.time_translator = _SccTimeTranslator()
 
@@ -232,6 +238,9 @@ class SCCReader(BaseReader):
         """
         if not isinstance(content, str):
             raise InvalidInputError("The content is not a unicode string.")
+
+        # nothing of a previous read may survive into this one
+        self._reset_state()
 
         self.simulate_roll_up = simulate_roll_up
         self.time_translator.offset = offset * 1000000
